@@ -9,4 +9,4 @@ mkdir -p build evidence replays
 cd coq
 { cat _CoqProject.base; ls theories/*.v; } > _CoqProject
 coq_makefile -f _CoqProject -o Makefile > /dev/null
-timeout 3000 make -j16 2>&1 | tail -5
+timeout 3000 make -k -j16 2>&1 | tail -5 || true
